@@ -9,7 +9,7 @@ import "fmt"
 // Mut is one corruption applied to a named field of a message in transit.
 type Mut struct {
 	Field string `json:"field"`
-	Kind  string `json:"kind"`            // flip | drop | insert | trunc | extend | zero | swap | splice | tailsplice | dropend
+	Kind  string `json:"kind"`            // flip | drop | insert | trunc | extend | zero | swap | splice | tailsplice | dropend | resplit
 	I     int    `json:"i,omitempty"`     // bit index (flip), byte index (drop/insert), new length (trunc), count (extend)
 	V     int    `json:"v,omitempty"`     // byte value (insert/extend)
 	Other string `json:"other,omitempty"` // swap: second field; splice: field of the other message ("other.<name>")
@@ -94,6 +94,18 @@ func ApplyEach(fields map[string][]byte, muts []Mut) (out map[string][]byte, fir
 				continue
 			}
 			copy(b[len(b)-m.I:], o[len(o)-m.I:])
+		case "resplit": // the boundary between this field and the next one (Other) moves by I bytes (I<0: to the left)
+			o, ok := out[m.Other]
+			if !ok || m.I == 0 {
+				continue
+			}
+			joined := append(append([]byte{}, b...), o...)
+			cut := len(b) + m.I
+			if cut < 0 || cut > len(joined) {
+				continue
+			}
+			b = append([]byte{}, joined[:cut]...)
+			out[m.Other] = append([]byte{}, joined[cut:]...)
 		case "dropend": // remove the last I bytes
 			if m.I <= 0 || m.I > len(b) {
 				continue
